@@ -138,9 +138,32 @@ unsafe impl BufMut for BytesMut {
 }
 
 /// Immutable byte string.
-#[derive(Clone, Default)]
+#[derive(Default)]
 pub struct Bytes {
     data: Vec<u8>,
+}
+
+impl Clone for Bytes {
+    fn clone(&self) -> Self {
+        #[cfg(kani)]
+        {
+            // element-wise copy into a fixed-capacity allocation (see verif_map::ModelClone)
+            let n = self.data.len();
+            assert!(n <= CAPB, "bytes shim: clone of more than CAPB bytes");
+            let mut v: Vec<u8> = Vec::with_capacity(CAPB);
+            let src = self.data.as_ptr();
+            let dst = v.as_mut_ptr();
+            macro_rules! step { ($($i:expr),*) => { $( if $i < n { unsafe { *dst.add($i) = *src.add($i); } } )* } }
+            step!(0, 1, 2, 3, 4, 5, 6, 7, 8, 9, 10, 11, 12, 13, 14, 15, 16, 17, 18, 19, 20, 21, 22, 23, 24, 25,
+                  26, 27, 28, 29, 30, 31, 32, 33, 34, 35, 36, 37, 38, 39);
+            unsafe { v.set_len(n) };
+            Self { data: v }
+        }
+        #[cfg(not(kani))]
+        {
+            Self { data: self.data.clone() }
+        }
+    }
 }
 
 impl Bytes {
